@@ -15,6 +15,7 @@ RULE = ("inputs: generator programs under >= 3 random layouts (redundant parenth
         "the same bytes as the library path. distinct = distinct input texts; non-trivial = parses and has >= 2 "
         "statements or a comment.")
 RULE += (" " + 'Also: 71 hostile field names (leading underscore, digits, dashes, dots, blanks, empty, non-ASCII letters after an ASCII one, every keyword, punctuation) in 8 positions each (tuple literal, selector, copy, select arm, module parameter, constrained field, exemplar, string), a grid of 244 float literals over 61 decimal magnitudes, one to three trailing comment groups after the last statement, comment-only files.')
+RULE += (" " + "Every CLI sample is also formatted in place (`fmt -w`) and in directory mode from a loosely written source (trailing blanks, blank lines, a wide gap before the first token), so that the formatted text is shorter than the file it replaces; the file must equal the library's output.")
 
 
 def comments_of(text):
